@@ -2,8 +2,8 @@ import IceSpec.AgentMonC01
 /-!
 # C20, sentence 2: quiescent agreement of a renomination exchange
 
-Evaluated at a `mark` (the generator writes `mark fairend` after its fair loss-free suffix).  Everything is read off
-the operations and the IMPLEMENTATION's output lines:
+Evaluated at a `mark` (the generator writes `mark fairend` / `mark quiesced` after its fair loss-free suffixes).
+Everything is read off the operations and the IMPLEMENTATION's output lines:
 
 * the nominations the controlling agent issued = the Binding requests with a nomination value it emitted (`emitted`);
 * a nomination's exchange completed = the success response with its transaction id was delivered to the issuer and
@@ -11,12 +11,22 @@ the operations and the IMPLEMENTATION's output lines:
 * quiesced = no datagram with a nomination value is in flight, and the controlled agent has no pair that still carries
   the highest value as a deferred nomination.
 
-Clause: in a session in scope (two agents, started before the first renomination, fixed and opposite roles, the
-controlled agent full, nobody Failed, no restart / close, no forged traffic, fixed topology, every inbound datagram
-attributable), if the exchange has quiesced and the exchange of THE nomination with the highest value issued completed,
-then the controlling agent's selected pair is the pair that nomination was issued on and the controlled agent's
-selected pair is its mirror image modulo NAT.  A lost highest nomination (request or response dropped) is outside the
-premise: the implementation does not retransmit nominations.
+Scope (`c20Scope`): two agents, started before the first renomination, fixed and opposite roles, nobody Failed, no
+restart / close, no forged traffic, fixed topology, every inbound datagram attributable.  The controlled agent may be
+full or lite.
+
+`c20Agreement`: if the exchange has quiesced and the exchange of THE nomination with the highest value issued
+completed, then the controlling agent's selected pair is the pair that nomination was issued on and the controlled
+agent's selected pair is its mirror image modulo NAT (C20; when both have a selection and the two are not mirror
+images, also C01: "the pairs they select are mirror images").  A lost highest nomination (request or response
+dropped) is outside the premise: the implementation does not retransmit nominations.
+
+`c20Settled` (the controlled side validates the renominated pair): if that exchange completed, nothing was dropped
+since the nomination was issued, nothing is blocked, the hub is empty and the fair loss-free run before the mark had
+at least 3 rounds and lasted at least the controlling agent's keepalive interval + 1 s (so a keepalive of the
+controlling agent on its new pair has reached the controlled agent), then the controlled agent no longer holds the
+highest value as a DEFERRED nomination: a Binding request on a pair the controlled agent has not validated itself
+makes it send its own (triggered) check, whose answer completes the nomination.
 -/
 namespace IceSpec.AgentMon
 
@@ -24,25 +34,31 @@ def c20Scope (s : MonState) : Bool :=
   s.hasB && !s.forged && !s.anyRestart && !s.anyClose && !s.roleMoved && !s.renomEarly && !s.mixedNets &&
   !s.uncertainFlag && !s.topoLate && s.a.started && s.b.started && !s.a.everFailed && !s.b.everFailed
 
+/-- the nomination with the highest value the controlling agent issued, when it was issued on one pair only and its
+exchange completed: (value, first emission, all emissions) -/
+def c20Top (xc : AgInfo) : Option (Nat × Emit × List Emit) :=
+  let issued := xc.emitted.filter fun e => e.nom.isSome && e.gen == xc.gen
+  match issued.foldl (fun m e => max m (e.nom.getD 0)) 0 with
+  | 0 => none
+  | v =>
+    let top := issued.filter fun e => e.nom == some v
+    match top with
+    | [] => none
+    | e0 :: _ =>
+      if !(top.all fun e => e.src == e0.src && e.dst == e0.dst) then none
+      else if !(top.any fun e => xc.answered.contains e.tid) then none
+      else some (v, e0, top)
+
 def c20Agreement (s : MonState) (ca cb : AgD) : Verdicts :=
   if !c20Scope s || ca.ctl == cb.ctl then [] else
   -- C = the controlling agent, D = the controlled one
   let (xc, cc, cd, nc, nd) := if ca.ctl then (s.a, ca, cb, "A", "B") else (s.b, cb, ca, "B", "A")
-  let xd := if ca.ctl then s.b else s.a
-  if xd.lite || ca.st == "Failed" || cb.st == "Failed" then [] else
-  let issued := xc.emitted.filter fun e => e.nom.isSome && e.gen == xc.gen
-  match issued.foldl (fun m e => max m (e.nom.getD 0)) 0 with
-  | 0 => []
-  | v =>
-    let top := issued.filter fun e => e.nom == some v
-    match top with
-    | [] => []
-    | e0 :: _ =>
-      -- the highest value was issued on one pair only, and its exchange completed
-      if !(top.all fun e => e.src == e0.src && e.dst == e0.dst) then []
-      else if !(top.any fun e => xc.answered.contains e.tid) then []
+  if ca.st == "Failed" || cb.st == "Failed" then [] else
+  match c20Top xc with
+  | none => []
+  | some (v, e0, _) =>
       -- quiesced
-      else if s.infl.any (·.nom.isSome) then []
+      if s.infl.any (·.nom.isSome) then []
       else if cd.pairs.any (fun q => q.defr && q.dval == some v) then []
       else
         let vc : Verdicts := match selPair cc with
@@ -56,6 +72,31 @@ def c20Agreement (s : MonState) (ca cb : AgD) : Verdicts :=
             if (if ca.ctl then s.mirror want y else s.mirror y want) then []
             else [("C20", s!"quiescent agreement: the exchange of the highest nomination {v} ({e0.src}>{e0.dst}) completed, but the controlled agent {nd} is on {y.la}>{y.ra}, not on the mirror image")]
           | none => [("C20", s!"quiescent agreement: the exchange of the highest nomination {v} ({e0.src}>{e0.dst}) completed, but the controlled agent {nd} has no selected pair")]
-        vc ++ vd
+        let vm : Verdicts := match selPair ca, selPair cb with
+          | some x, some y =>
+            if s.mirror x y then []
+            else [("C01", s!"the renomination exchange has quiesced (the exchange of the highest nomination {v} completed) but the selected pairs are not mirror images: A {x.la}>{x.ra}, B {y.la}>{y.ra}")]
+          | _, _ => []
+        vc ++ vd ++ vm
+
+def c20Settled (s : MonState) (ca cb : AgD) : Verdicts :=
+  if !c20Scope s || ca.ctl == cb.ctl then [] else
+  let (xc, cd, nd) := if ca.ctl then (s.a, cb, "B") else (s.b, ca, "A")
+  if ca.st == "Failed" || cb.st == "Failed" then [] else
+  match c20Top xc with
+  | none => []
+  | some (v, e0, top) =>
+    let noLoss := s.blocked.isEmpty && (match s.lastDrop with | none => true | some l => top.all fun e => l < e.ln)
+    let fair := s.infl.isEmpty && s.fairRounds ≥ 3 && xc.ka > 0 && s.fairTime ≥ xc.ka + 1000
+    if !(noLoss && fair) then [] else
+    match cd.pairs.find? (fun q => q.defr && q.dval == some v && q.st != "f") with
+    | none => []
+    | some q =>
+      [("C20", s!"the exchange of the highest nomination {v} ({e0.src}>{e0.dst}) completed and a fair loss-free run of {s.fairRounds} rounds / {s.fairTime} ms is over, but the controlled agent {nd} still holds it as a deferred nomination on pair {q.id} ({q.la}>{q.ra}, state {q.st}): its own check of that pair never completed")] ++
+      (match selPair ca, selPair cb with
+       | some x, some y =>
+         if s.mirror x y then []
+         else [("C01", s!"the renomination has not converged after a fair loss-free run of {s.fairRounds} rounds / {s.fairTime} ms: the controlled agent {nd} never validated the renominated pair {q.la}>{q.ra}; the selected pairs are not mirror images: A {x.la}>{x.ra}, B {y.la}>{y.ra}")]
+       | _, _ => [])
 
 end IceSpec.AgentMon
